@@ -560,6 +560,79 @@ func RunL1(line string) string {
 	return strings.Join(toks, " ")
 }
 
+// BridgeGoroutines counts goroutines that are still inside code of the bridge itself: any frame of a package
+// of github.com/renbou/grpcbridge (the forwarder, the proxy's stream adapter and its withCtx helper, the
+// webbridge handlers and helpers, the client stream adapter). It is meant to be called after the call has
+// completed AND everything such a goroutine could be waiting for has been released (client stream torn down,
+// connection closed, blocked fakes released): whatever is left then can never exit. The second result names
+// the first offender ("<function>[<state>]") for the replay file.
+func BridgeGoroutines(ignore map[string]bool) (int, string) {
+	cnt, where := 0, "-"
+	for id, w := range bridgeGoroutineIDs() {
+		if ignore[id] {
+			continue
+		}
+		cnt++
+		if where == "-" || w < where {
+			where = w
+		}
+	}
+	return cnt, where
+}
+
+// BridgeGoroutineSnapshot returns the ids of the goroutines that are inside the bridge right now; a case takes
+// it before it starts, so that whatever an EARLIER case leaked is attributed to that case only.
+func BridgeGoroutineSnapshot() map[string]bool {
+	m := map[string]bool{}
+	for id := range bridgeGoroutineIDs() {
+		m[id] = true
+	}
+	return m
+}
+
+func bridgeGoroutineIDs() map[string]string {
+	buf := make([]byte, 1<<22)
+	n := runtime.Stack(buf, true)
+	out := map[string]string{}
+	for _, g := range strings.Split(string(buf[:n]), "\n\n") {
+		i := strings.Index(g, "github.com/renbou/grpcbridge")
+		if i < 0 || !strings.HasPrefix(g, "goroutine ") {
+			continue
+		}
+		id := g[len("goroutine "):]
+		if j := strings.IndexByte(id, ' '); j >= 0 {
+			id = id[:j]
+		}
+		state := ""
+		if a, b := strings.IndexByte(g, '['), strings.IndexByte(g, ']'); a >= 0 && b > a {
+			state = g[a : b+1]
+			if k := strings.IndexByte(state, ','); k >= 0 { // drop the ", N minutes" part
+				state = state[:k] + "]"
+			}
+			state = strings.ReplaceAll(state, " ", "_")
+		}
+		fn := g[i:]
+		if j := strings.IndexAny(fn, "(\n"); j >= 0 {
+			fn = fn[:j]
+		}
+		out[id] = strings.TrimPrefix(fn, "github.com/renbou/") + state
+	}
+	return out
+}
+
+// WaitBridgeGoroutinesGone polls until no goroutine (other than the ignored, pre-existing ones) is left inside
+// the bridge, or the limit passes.
+func WaitBridgeGoroutinesGone(limit time.Duration, ignore map[string]bool) (int, string) {
+	deadline := time.Now().Add(limit)
+	for {
+		n, where := BridgeGoroutines(ignore)
+		if n == 0 || time.Now().After(deadline) {
+			return n, where
+		}
+		time.Sleep(5 * time.Millisecond)
+	}
+}
+
 // ForwardGoroutines is forwardGoroutines for the other areas of this slice.
 func ForwardGoroutines() int { return forwardGoroutines() }
 
